@@ -267,6 +267,8 @@ func runC06(c *Ctx, r *Report) {
 	defer c13r6(c, r) // --tail trimming writes only into chunks of its own
 	defer c06r7(c, r)
 	defer c06r8(c, r)
+	defer c06r9(c, r)  // --tail is honoured by every path that loads records
+	defer c13r10(c, r) // the item builder (ordinals, header diversion) is serialised
 
 	// ---------------- R2 ----------------
 	r.rule("C06-R2", "A + B + C", "P1",
